@@ -18,7 +18,7 @@ MANIFEST = {
             'exactly in the Malformed arm, and decode()/decode_with_bom_removal() strip exactly the recognised BOM before delegating (shared '
             'with C10); (D4) the unreachable!() on OutputFull is justified: the String capacity is valid_up_to + the same decoder\'s '
             'max_utf8_buffer_length_without_replacement(bytes.len() - valid_up_to). Equality of results with the streaming API follows from '
-            'C01/C02/C19 semantics and is not decided here. (D3.encode-flag) Encoding::encode ORs the unmappable flag of every encode_from_utf8_to_vec call, starting from false, on the growing path as well, and returns it.',
+            'C01/C02/C19 semantics and is not decided here. (D3.encode-flag) Encoding::encode ORs the unmappable flag of every encode_from_utf8_to_vec call, starting from false, on the growing path as well, and returns it. Also run here: R-SCAN over utf_8::utf8_valid_up_to, which decides how much of a UTF-8 input is borrowed.',
     'note': 'Trusted: rustc MIR, mirx, rule library, String/Vec semantics.',
     'technique': 'bounded path enumeration with symbolic summaries over MIR + value provenance',
 }
@@ -542,4 +542,6 @@ def run(rep, facts, tier):
         r_strsafe.unchecked_str(rep, f, c, 'C11-D1.class', check_class=True, only=lambda n: n.startswith('Encoding::'))
         p_c19.d5(rep, f, c)
         p_c10.one_shot(rep, f, c)
+        import scan
+        scan.run_specs(rep, f, c, 'R-SCAN', ['utf_8::utf8_valid_up_to'])     # decides how much of a UTF-8 input the one-shot API borrows
     return ('other', MANIFEST['text'], [])
